@@ -49,11 +49,12 @@ type RaceCase struct {
 	Destroyed []int  `json:"destroyed"`      // stores removed as physically destroyed (not the target)
 	StayUp    []int  `json:"stayUp"`         // stores that are not removed at all (not the target)
 	// lock mode
-	TargetState  string   `json:"targetState,omitempty"`  // off (default) | up | offD
-	TargetRegion bool     `json:"targetRegion,omitempty"` // the target still holds a region peer
-	Ops          []string `json:"ops,omitempty"`          // 1-2 of check, remove, removeD, up, weight, labels
-	Hb           string   `json:"hb,omitempty"`           // "", persist, nopersist
-	Order        []int    `json:"order,omitempty"`        // queue order: permutation of the participants (ops..., hb last index)
+	TargetState   string   `json:"targetState,omitempty"`   // off (default) | up | offD
+	TargetRegion  bool     `json:"targetRegion,omitempty"`  // the target still holds a region peer
+	TargetLearner bool     `json:"targetLearner,omitempty"` // ... and that peer is a learner (the voter is on the next store)
+	Ops           []string `json:"ops,omitempty"`           // 1-2 of check, remove, removeD, up, weight, labels
+	Hb            string   `json:"hb,omitempty"`            // "", persist, nopersist
+	Order         []int    `json:"order,omitempty"`         // queue order: permutation of the participants (ops..., hb last index)
 	// spin mode
 	Spinners int   `json:"spinners,omitempty"`
 	History  *Case `json:"history,omitempty"`
@@ -86,7 +87,8 @@ func genRace(t *rapid.T) RaceCase {
 	}
 	c.Mode = "lock"
 	c.TargetState = rapid.SampledFrom([]string{"off", "off", "off", "up", "up", "offD"}).Draw(t, "targetState")
-	c.TargetRegion = rapid.IntRange(0, 5).Draw(t, "targetRegion") == 0
+	c.TargetRegion = rapid.IntRange(0, 4).Draw(t, "targetRegion") == 0
+	c.TargetLearner = c.TargetRegion && rapid.Bool().Draw(t, "targetLearner")
 	n := rapid.IntRange(1, 2).Draw(t, "nOps")
 	for len(c.Ops) < n {
 		op := rapid.SampledFrom(raceOps).Draw(t, "op")
@@ -230,7 +232,9 @@ func runRace(c RaceCase) (vkit.Info, error) {
 	target := uint64(c.Target + 1)
 	for i := 0; i < c.Stores; i++ {
 		id := uint64(i + 1)
-		if has(c.Regions, i) || (id == target && c.TargetRegion) {
+		if id == target && c.TargetRegion && c.TargetLearner {
+			placeLearner(f, m, id, uint64((c.Target+1)%c.Stores+1))
+		} else if has(c.Regions, i) || (id == target && c.TargetRegion) {
 			placeOne(f, m, id)
 		}
 		d := has(c.Destroyed, i)
@@ -469,6 +473,7 @@ func runLockRace(c RaceCase, f *fixture, m *model, target uint64, info vkit.Info
 		return info, err
 	}
 	info.Class("mode-lock")
+	info.ClassIf(c.TargetLearner, "target-holds-learner-only")
 	for _, o := range c.Ops {
 		info.Class("racer-" + o)
 	}
@@ -508,4 +513,14 @@ func placeOne(f *fixture, m *model, store uint64) {
 	f.bc.PutRegion(newRegion(meta))
 	m.regions = append(m.regions, &mregion{id: rid, stores: []uint64{store}})
 	f.syncStatus(store)
+}
+
+// placeLearner: a region with a learner on store and its voter (leader) on voterStore.
+func placeLearner(f *fixture, m *model, store, voterStore uint64) {
+	rid := m.nextReg
+	m.nextReg++
+	mr := &mregion{id: rid, stores: []uint64{store, voterStore}, roles: []int{1, 0}, leader: 1, confVer: 1}
+	f.bc.PutRegion(mr.info())
+	m.regions = append(m.regions, mr)
+	f.syncStatus(store, voterStore)
 }
